@@ -195,13 +195,49 @@ Section Chain.
 End Chain.
 
 (* ---------- free lists ---------- *)
+(* the guard on the entry count never changes the result: n entries need at least n bytes *)
+Lemma decode_region_size buf : let '(_, _, sz) := decode_region buf in sz = 8 \/ sz = 12.
+Proof. unfold decode_region. destruct (_ =? 0); [left; reflexivity|]. destruct (_ =? entryOverflow); [right | left]; reflexivity. Qed.
+
+Lemma decode_entries_len : forall n p es, decode_entries n p = Some es -> (n <= length p)%nat.
+Proof.
+  induction n as [|n IH]; intros p es; cbn [decode_entries]; [lia|].
+  destruct (length p <? 8)%nat eqn:E8; [discriminate|]. apply Nat.ltb_ge in E8.
+  pose proof (decode_region_size p) as Hsz. destruct (decode_region p) as [[m r] sz].
+  destruct (length p <? Z.to_nat sz)%nat eqn:Es; [discriminate|]. apply Nat.ltb_ge in Es.
+  destruct (decode_entries n (skipn (Z.to_nat sz) p)) as [es0|] eqn:Er; [|discriminate]. intros _.
+  specialize (IH _ _ Er). rewrite skipn_length in IH. destruct Hsz as [-> | ->]; lia.
+Qed.
+
+Lemma decode_entries_z_eq cnt p : decode_entries_z cnt p = decode_entries (Z.to_nat cnt) p.
+Proof.
+  unfold decode_entries_z. destruct (Z.of_nat (length p) <? cnt) eqn:E; [|reflexivity].
+  destruct (decode_entries (Z.to_nat cnt) p) as [es|] eqn:Ed; [|reflexivity].
+  apply decode_entries_len in Ed. lia.
+Qed.
+
+Lemma decode_wal_entries_len : forall n p es, decode_wal_entries n p = Some es -> (n <= length p)%nat.
+Proof.
+  induction n as [|n IH]; intros p es; cbn [decode_wal_entries]; [lia|].
+  destruct (length p <? 14)%nat eqn:E8; [discriminate|]. apply Nat.ltb_ge in E8.
+  destruct (decode_wal_entries n (skipn 14 p)) as [es0|] eqn:Er; [|discriminate]. intros _.
+  specialize (IH _ _ Er). rewrite skipn_length in IH. lia.
+Qed.
+
+Lemma decode_wal_entries_z_eq cnt p : decode_wal_entries_z cnt p = decode_wal_entries (Z.to_nat cnt) p.
+Proof.
+  unfold decode_wal_entries_z. destruct (Z.of_nat (length p) <? cnt) eqn:E; [|reflexivity].
+  destruct (decode_wal_entries (Z.to_nat cnt) p) as [es|] eqn:Ed; [|reflexivity].
+  apply decode_wal_entries_len in Ed. lia.
+Qed.
+
 Lemma read_freelist_is_chain : forall fuel d pid,
   read_freelist fuel d pid = read_chain decode_entries fuel d pid.
-Proof. induction fuel as [|f IH]; intros d pid; cbn [read_freelist read_chain]; [reflexivity|]. destruct (pid =? 0); [reflexivity|]. destruct (d pid); [|reflexivity]. destruct (decode_entries _ _); [|reflexivity]. rewrite IH. reflexivity. Qed.
+Proof. induction fuel as [|f IH]; intros d pid; cbn [read_freelist read_chain]; [reflexivity|]. destruct (pid =? 0); [reflexivity|]. destruct (d pid); [|reflexivity]. rewrite decode_entries_z_eq. destruct (decode_entries _ _); [|reflexivity]. rewrite IH. reflexivity. Qed.
 
 Lemma read_wal_is_chain : forall fuel d pid,
   read_wal fuel d pid = read_chain decode_wal_entries fuel d pid.
-Proof. induction fuel as [|f IH]; intros d pid; cbn [read_wal read_chain]; [reflexivity|]. destruct (pid =? 0); [reflexivity|]. destruct (d pid); [|reflexivity]. destruct (decode_wal_entries _ _); [|reflexivity]. rewrite IH. reflexivity. Qed.
+Proof. induction fuel as [|f IH]; intros d pid; cbn [read_wal read_chain]; [reflexivity|]. destruct (pid =? 0); [reflexivity|]. destruct (d pid); [|reflexivity]. rewrite decode_wal_entries_z_eq. destruct (decode_wal_entries _ _); [|reflexivity]. rewrite IH. reflexivity. Qed.
 
 (* what writeFreeLists wrote is what readFreeList reads: the same page chain and the same entries (meta
    regions first, flagged), for any number of pages, also pre-allocated pages that stay empty *)
@@ -235,3 +271,8 @@ Proof.
   intros Hne Hids Hm Hlen Hw Hag Hf. rewrite read_wal_is_chain. unfold write_wal in Hw.
   apply (write_read_chain wal_entry decode_wal_entries _ decode_wal_entries_concat ps ids mapping pages d fuel); assumption.
 Qed.
+
+(* D19: an entry count beyond the page is an error of both readers (never a read past the page) *)
+Lemma count_beyond_page_is_error cnt p : Z.of_nat (length p) < cnt ->
+  decode_entries_z cnt p = None /\ decode_wal_entries_z cnt p = None.
+Proof. intros H. unfold decode_entries_z, decode_wal_entries_z. replace (Z.of_nat (length p) <? cnt) with true by lia. split; reflexivity. Qed.
